@@ -113,7 +113,8 @@ CallWCheck(k) == /\ cpc[k] = "wcheck" /\ CS(st)
 \* seam: Writer.Write returns.  "ctx": the write was abandoned because the caller's context ended
 CallWriterReturn(k, o) == /\ cpc[k] = "inwriter" /\ (o \in Outcomes \/ (o = "ctx" /\ ctxDone[k]))
   /\ (CASE o = "ok" -> cpc' = [cpc EXCEPT ![k] = "await"] /\ wire' = Append(wire, <<"call", k>>)
-        [] o = "broken" -> cpc' = [cpc EXCEPT ![k] = "wfail"] /\ UNCHANGED <<wire>>
+        \* a failed write is blamed on the Writer only if the caller's context is still live (write(): ctx.Err() == nil)
+        [] o = "broken" -> cpc' = [cpc EXCEPT ![k] = IF ctxDone[k] THEN "retireW" ELSE "wfail"] /\ UNCHANGED <<wire>>
         [] OTHER -> cpc' = [cpc EXCEPT ![k] = "retireW"] /\ UNCHANGED <<wire>>)
   /\ UNCHANGED <<st, sent, ready, outcome, ctxDone, npc, rdpc, rdarg, unread, dpc, darg, hpc, released, hctx, rp, isnotif, canpc, clpc, wtpc, transportClosed>>
 
